@@ -67,7 +67,7 @@ class Ctx:
     # ---- coverage bookkeeping
     @property
     def quick(self):
-        return self.tier == "quick"
+        return self.tier != "thorough"
 
     def pick(self, quick, thorough):
         return quick if self.quick else thorough
